@@ -157,7 +157,18 @@ class World (object):
     _CUR[0] = self
 
   # -- driving ------------------------------------------------------------------------------
+  def select_ok (self):
+    """What select.select() does with the set the loop waits on: an object whose fileno() is -1 makes
+    it raise ValueError - in recoco's SelectHub thread, which ends; no task is ever resumed again."""
+    if self.sel is None or self.dead: return not self.dead
+    if any(x.fileno() < 0 for x in self.select_set()):
+      self.dead = "select"
+      self.dead_site = ("select:ValueError:file descriptor cannot be a negative integer", "closed-socket-left-in-select-set")
+      return False
+    return True
+
   def step (self, r, w=()):
+    if not self.select_ok(): return False
     self.nsend += 1
     MonBudget.arm(BUDGET)
     try:
@@ -176,6 +187,7 @@ class World (object):
 
   def settle (self):
     for n in range(MAXIT):
+      if not self.select_ok(): return False
       r, w = self.ready()
       if not r and not w: return True
       if not self.step(r, w): return False
@@ -217,6 +229,25 @@ class World (object):
     x = []
     for l in self.logs: x.extend(l.exc)
     return x
+
+
+class CSock (env.ScriptSock):
+  """ScriptSock that behaves like a real socket where the I/O loops can tell the difference:
+  fileno() is -1 once closed (select.select() raises ValueError for such an object, which ends
+  recoco's SelectHub thread - nothing is served any more), and after shutdown(SHUT_RD / SHUT_RDWR) the
+  socket is readable and recv() returns b'' (how the unchanged loop notices a connection that
+  Connection.disconnect() gave up on and removes it)."""
+  rd_shut = False
+  def fileno (self): return -1 if self.closed else 77
+  def shutdown (self, how):
+    env.ScriptSock.shutdown(self, how)
+    if how in (0, 2): self.rd_shut = True
+  def recv (self, n, flags=0):
+    if self.closed:
+      import socket, errno
+      raise socket.error(errno.EBADF, "recv on closed socket")
+    if self.rd_shut: return b""
+    return env.ScriptSock.recv(self, n, flags)
 
 
 class FakeListener (object):
@@ -275,7 +306,7 @@ class CtlWorld (World):
     task.ssl_key = task.ssl_cert = task.ssl_ca_cert = None
     self.task = task
     self.g = task.run()
-    self.socks = [env.ScriptSock(("switch", 100 + i)) for i in range(3)]
+    self.socks = [CSock(("switch", 100 + i)) for i in range(3)]
     self.cons = []
 
   def _on_logged (self, so, tb):
@@ -307,8 +338,24 @@ class CtlWorld (World):
         if self.lst.q: r.append(x)
       else:
         s = x.sock
-        if s.rx or s.eof: r.append(x)
+        if s.rx or s.eof or s.rd_shut: r.append(x)
     return r, []
+
+  def select_set (self):
+    return [x for x in self.sel._args[0] + self.sel._args[2]]
+
+  def apply_env (self, envf):
+    if not envf: return
+    if envf == "no-nexus":
+      # an arbiter without a default nexus; a ConnectionIn listener assigns one to every datapath but the hostile one
+      arb, nexus, ofm = self.st.arbiter, self.st.nexus, self.st.ofm
+      arb._default = None
+      def pick (e):
+        if e.dpid != 0x20 + HOSTILE: e.nexus = nexus
+      arb.addListener(ofm.ConnectionIn, pick)
+    elif envf.startswith("epipe"):
+      self.socks[HOSTILE].send_script = ["all"] * int(envf[5:]) + ["epipe"]
+    else: raise ValueError(envf)
 
   def is_closed (self, i):
     return bool(self.socks[i].closed or (i < len(self.cons) and self.cons[i].disconnected))
@@ -347,7 +394,7 @@ class SwWorld (World):
     self.loop = iow.RecocoIOLoop()
     self.socks = []; self.workers = []; self.conns = []; self.sws = []
     for i in range(3):
-      s = env.ScriptSock(("controller", 6633 + i))
+      s = CSock(("controller", 6633 + i))
       w = iow.RecocoIOWorker(s)
       self.loop.register_worker(w)
       c = swm.OFConnection(w)
@@ -375,8 +422,17 @@ class SwWorld (World):
         if x.pings: r.append(x)
       else:
         s = x.socket
-        if s.rx or s.eof: r.append(x)
+        if s.rx or s.eof or s.rd_shut: r.append(x)
     return r, list(self.sel._args[1])
+
+  def select_set (self):
+    return [x for x in self.sel._args[0] + self.sel._args[1] + self.sel._args[2] if x is not self.loop.pinger]
+
+  def apply_env (self, envf):
+    if not envf: return
+    if envf.startswith("epipe"):
+      self.socks[HOSTILE].send_script = ["all"] * int(envf[5:]) + ["epipe"]
+    else: raise ValueError(envf)
 
   def is_closed (self, i):
     w = self.workers[i]
@@ -435,13 +491,18 @@ def valid_msg (side, i, n):
 
 
 def corrupt (inst, field, val):
-  b = bytearray(inst.data)
+  return corrupt_bytes(inst.data, inst.emb, field, val)
+
+
+def corrupt_bytes (data, emb, field, val):
+  b = bytearray(data)
   if field == "hdr.length": struct.pack_into("!H", b, 2, val)
+  elif field == "xid": struct.pack_into("!L", b, 4, struct.unpack_from("!L", b, 4)[0] ^ val)
   elif field == "type": b[1] = val
   elif field == "version": b[0] = val
   elif field == "ver+len":                      # double corruption: bad version AND overstated length
     b[0] = val >> 16; struct.pack_into("!H", b, 2, val & 0xffff)
-  elif field.startswith("emb:"): struct.pack_into("!H", b, dict(inst.emb)[field[4:]], val)
+  elif field.startswith("emb:"): struct.pack_into("!H", b, dict(emb)[field[4:]], val)
   elif field == "trunc": b = b[:val]
   elif field == "none": pass
   else: raise ValueError(field)
@@ -451,12 +512,24 @@ def corrupt (inst, field, val):
 def build (case, insts):
   """Scripts (lists of recv chunks) for the three connections."""
   side = case["side"]; inst = insts[case["inst"]]
-  m = corrupt(inst, case["field"], case["val"])
-  M = Piece(m, case["field"] == "none" and side[0] in inst.to, "M")
   V1 = valid_msg(side, HOSTILE, 0); V2 = valid_msg(side, HOSTILE, 1)
   hs = handshake(side, HOSTILE)
   pos = case["pos"]; glue = bool(case.get("glue"))
-  if case.get("eof"):
+  if pos.startswith("hs"):
+    # the corruption hits the k-th message of the handshake itself (valid prefix, handshake state)
+    k = int(pos[2:]); p = hs[k]; f, val = case["field"], case["val"]
+    if p.fn is not None:
+      hs[k] = Piece(None, f == "none", "M:" + p.label, fn=(lambda f0: lambda w, i: corrupt_bytes(f0(w, i), (), f, val))(p.fn))
+    else:
+      hs[k] = Piece(corrupt_bytes(p.data, (), f, val), f == "none", "M:" + p.label)
+    chunks = hs + [V1, V2]
+    M = None
+  else:
+    m = corrupt(inst, case["field"], case["val"])
+    M = Piece(m, case["field"] == "none" and side[0] in inst.to, "M")
+  if M is None:
+    pass
+  elif case.get("eof"):
     # the peer sends the (truncated) message and closes: nothing follows it
     if pos == "first": chunks = [M, Piece(eof=True)]
     elif pos == "after": chunks = hs + [V1, V2, M, Piece(eof=True)]
@@ -489,6 +562,8 @@ def field_class (case, inst):
   if f == "hdr.length":
     return "hdr.length<8" if v < 8 else ("hdr.length=short" if v < n else "hdr.length=long")
   if f == "type": return "type"
+  if f == "xid": return "xid"
+  if f == "none" and case.get("env"): return "env=" + case["env"].rstrip("0123456789")
   if f == "version": return "version"
   if f == "ver+len": return "version+hdr.length=long"
   if f.startswith("emb:"):
@@ -499,6 +574,8 @@ def field_class (case, inst):
 
 
 def msg_class (case, inst):
+  if case["pos"].startswith("hs"):
+    return "handshake." + inst.name
   if case["field"] == "type":
     v = case["val"]
     return "as:" + (W.TYPE_NAMES[v] if v < len(W.TYPE_NAMES) else "unknown-type")
@@ -526,6 +603,7 @@ def execute (case, insts, alt_from=None):
   w = CtlWorld() if case["side"] == "ctl" else SwWorld()
   old = sys.stderr; sys.stderr = io.StringIO()
   try:
+    w.apply_env(case.get("env"))
     w.completed = w.run_scripts(scripts)
     if w.completed:
       w.completed = w.step([])              # one idle wake-up: the loop must yield a Select again
@@ -582,11 +660,16 @@ def judge (case, insts, w, differential=True):
     site, via = (w.dead_site or (None, None))
     if site is None and w.looplog.exc:
       site, via = w.looplog.exc[-1]
-    if via == "read>unpack_new": subj = ["via=" + via]
+    if w.dead == "select": subj = [via]
+    elif via == "read>unpack_new": subj = ["via=" + via]
     elif via: subj = ["via=" + via, site]
     else: subj = [mc, fc, site]
-    v("2", "loop-died", subj, "the generator of %s ended (%s)%s: no connection is served any more"
-      % (lname, w.dead, " after %s" % site if site else ""))
+    if w.dead == "select":
+      v("2", "loop-died", subj, "%s left a closed socket (fileno() == -1) in the set it selects on: select() raises ValueError, "
+        "the select hub dies and no connection is served any more" % lname)
+    else:
+      v("2", "loop-died", subj, "the generator of %s ended (%s)%s: no connection is served any more"
+        % (lname, w.dead, " after %s" % site if site else ""))
     return bad, ("dead", site)
   for i in (0, 2):
     if i not in w.final_sel:
@@ -604,6 +687,11 @@ def judge (case, insts, w, differential=True):
       v("3", "sibling-messages-differ", [mc, fc], "sibling %d: sent %d messages, delivered %d; first difference at #%d" % (i, len(exp), len(got), k))
     if any(d["closed"] for d in w.deliv[i]):
       v("5", "delivered-after-close", [mc, fc], "sibling %d got a message delivered after it was closed" % i)
+    # served, not only read: every echo request of a sibling is answered (same xid, same body)
+    replies = set((xid_of(m), m[8:]) for m in W.split(w.socks[i].tx)[0] if m[1] == W.ECHO_REPLY)
+    for p in w.pushed[i]:
+      if p.label == "echo-request" and (xid_of(p.data), p.data[8:]) not in replies and not w.closed[i]:
+        v("3", "sibling-echo-unanswered", [mc, fc], "sibling %d: echo request xid %#x was not answered" % (i, xid_of(p.data)))
   # (4)/(5) hostile connection
   D = w.deliv[h]; E = w.errs[h]; closed = w.closed[h]
   acted = {}                     # unit index -> set of 'd' (delivered) 'x' (inexact) 'e' (error)
@@ -660,7 +748,7 @@ def judge (case, insts, w, differential=True):
   if closed:
     cause = [k for k in suspects if k <= last + 1]
     bad_tail = why == "incomplete" and len(tail) >= 1 and tail[0] != W.VERSION      # a header we cannot accept
-    if not cause and why != "unframeable" and not w.eof_pushed[h] and not bad_tail:
+    if not cause and why != "unframeable" and not w.eof_pushed[h] and not bad_tail and not case.get("env"):
       v("4", "closed-without-cause", [mc, fc], "the hostile connection was closed while only valid messages had been received")
   else:
     if (why == "incomplete" and len(tail) >= 8 and tail[0] != W.VERSION and tail[1] != W.HELLO
@@ -765,6 +853,35 @@ def cases_for (side, ii, inst, group, quick):
   return out
 
 
+HS_TYPES = dict(ctl=("HELLO", "FEATURES_REPLY", "BARRIER_REPLY"),
+                sw=("HELLO", "FEATURES_REQUEST", "SET_CONFIG", "BARRIER_REQUEST"))
+XID_MASKS = (1, 0x80000000, 0xffffffff)
+
+def hs_cases (side, insts, quick):
+  """Single-field corruption of each message of the handshake itself (after a valid prefix, in the
+  handshake state), and environment faults that make the controller give a connection up mid-handshake
+  (no nexus for the datapath; the n-th send on the hostile socket fails with EPIPE)."""
+  names = [i.name for i in insts]
+  out = []
+  def add (k, field, val, envf=None):
+    ii = names.index(HS_TYPES[side][k])
+    out.append(dict(side=side, inst=ii, name=insts[ii].name, field=field, val=val, pos="hs%d" % k, glue=False, eof=False, env=envf))
+  for k, tn in enumerate(HS_TYPES[side]):
+    n = len(handshake(side, HOSTILE)[k].data or b"12345678")
+    typ = W.TYPE_NAMES.index(tn)
+    add(k, "none", 0)
+    for m in XID_MASKS: add(k, "xid", m)
+    for ver in VERSIONS: add(k, "version", ver)
+    for ln in range(0, n + 9):
+      if ln != n and (not quick or ln < 10 or abs(ln - n) <= 8): add(k, "hdr.length", ln)
+    for t in (range(256) if not quick else TYPE_EDGE):
+      if t != typ: add(k, "type", t)
+  if side == "ctl": add(0, "none", 0, "no-nexus")
+  for nth in range(0, 7 if side == "ctl" else 5):
+    add(0, "none", 0, "epipe%d" % nth)
+  return out
+
+
 def _worker (cases):
   insts = R.catalogue()
   rep = Report(PID, "model_checking")
@@ -782,7 +899,7 @@ def _worker (cases):
     for key, text in bad:
       rep.violation(key, "%s side, %s %s=%s%s placed %s (%s): %s" %
                     ("controller" if side == "ctl" else "switch", inst.name, case["field"], case["val"],
-                     "+EOF" if case["eof"] else "", case["pos"], "one recv" if case["glue"] else "separate recvs", text),
+                     ("+EOF" if case["eof"] else "") + (" env=%s" % case["env"] if case.get("env") else ""), case["pos"], "one recv" if case["glue"] else "separate recvs", text),
                     case if not (("hdr.length<8" in key or "unframeable" in key) and case["field"] != "hdr.length") else
                     dict(case, note="the header with length < 8 is a by-product of the mis-framing this corruption causes"))
     if not bad and rep.evaluations % 400 == 1:
@@ -802,6 +919,8 @@ def run (cfg):
       for group in ("len", "type", "misc", "trunc"):
         if cfg.only and cfg.only not in (side, inst.name, group, "%s/%s" % (side, inst.name)): continue
         cases.extend(cases_for(side, ii, inst, group, quick))
+    if not cfg.only or cfg.only in (side, "hs"):
+      cases.extend(hs_cases(side, insts, quick))
   # round-robin slices: every slice gets the same mix of cheap and expensive cases
   for r in pmap(_worker, split(cases, cfg.workers * 6), cfg.workers, seed=cfg.seed):
     rep.merge(r)
